@@ -1,4 +1,5 @@
 import Ypv.Drv.C04
+import Ypv.Model.Alias
 /-! Driver handler for C03 (set / rename / histories / value typing tables). -/
 namespace Ypv.Drv.C03
 open Lean (Json)
@@ -58,6 +59,19 @@ def handle (op : String) (j : Json) : Except String Json := do
         | .ok d' => Json.mkObj [("ok", nodeToJson d')] :: go d' os
         | .error e => Json.mkObj [("err", errToJson e)] :: go d os
     pure (Json.mkObj [("steps", Json.arr (go d ops).toArray), ("plain", nodeToJson (runOps d ops).plain)])
+  | "alias" =>
+    -- {"doc", "src": addr, "addrs": [addr…], "name": text|null, "fresh": text}: `alias_nodes` in the value model
+    let d ← docOf j
+    let src ← addrOfJson (← j.getObjVal? "src")
+    let addrs ← addrsOf j "addrs"
+    let given : Option Str := match j.getObjVal? "name" with
+      | .ok (.str s) => some (s2l s)
+      | _ => none
+    let fresh := s2l ((getStr j "fresh").toOption.getD "id")
+    match Ypv.Alias.aliasNodes d src given fresh addrs with
+    | .ok (d', an) => pure (Json.mkObj [("ok", nodeToJson d'), ("anchor", nodeToJson an)])
+    | .error .nameTaken => pure (Json.mkObj [("err", "name-taken")])
+    | .error .noSource => pure (Json.mkObj [("err", "no-source")])
   | _ => throw s!"C03: unknown op {op}"
 
 end Ypv.Drv.C03
